@@ -19,7 +19,9 @@ Spec == Init /\ [][Next]_vars
 
 \* the message text as symbols: "c" content, "|" field delimiter, "CR", "NL"
 IsEmpty == prefix = "" /\ nfields = 1 /\ last = "" /\ ~nl
-Hidden == prefix \in {".", ".syn"}                               \* first byte '.': never printed
+\* first byte '.': never printed.  ".syn" stands for the close message ".syn close connection"; ".syn1", ".syn2", ".synb" for
+\* messages that begin like it but have fewer words (".syn", ".syn close", ".syn" followed by blanks)
+Hidden == prefix \in {".", ".syn", ".syn1", ".syn2", ".synb"}
 NeededFields(p) == CASE p = "REMOTE" -> 6 [] p \in {"CLIENT", "SERVER"} -> 3 [] OTHER -> 1
 \* ---- Impl: where the code indexes
 MaprFirstByteCrash == handler = "mapr" /\ IsEmpty /\ KF_MaprEmptyMessage
